@@ -17,6 +17,7 @@ type tgen struct {
 	counts   map[string]int
 	noScript bool
 	oracle   bool // C02: every Go expression is a call of a c02oracle function with a key
+	plain    bool // C09 printer fragment: single-line expressions without comments, no {{ }} blocks, no script/style elements
 	loopVars []string
 }
 
@@ -38,6 +39,9 @@ func (g *tgen) deco(e string) string {
 }
 
 func (g *tgen) pickStr() string {
+	if g.plain {
+		return g.r.pick([]string{"s", "t", `"lit"`, `fmt.Sprintf("%s-%d", s, n)`, "strErr(t)", "p.Name", `s + t`, "items[0]", `fmt.Sprint(n)`})
+	}
 	if !g.oracle {
 		return g.r.pick(tgStrExprs)
 	}
@@ -149,6 +153,9 @@ func (g *tgen) attr(el string, ind int) string {
 	switch k := g.r.intn(16); {
 	case k < 3:
 		g.note("attr-const")
+		if g.plain {
+			return fmt.Sprintf(`%s="%s"`, g.r.pick([]string{"id", "title", "data-x", "name", "lang"}), g.r.pick([]string{"v", "a b", "", "é", "x y", "1"}))
+		}
 		v := g.r.pick([]string{"v", "a b", "x&amp;y", "it's", "&lt;", "", "é", "1&quot;2", "a&#39;b", "/s?q=1&amp;copy=2&amp;lt=5", "a&amp;amp;b", "&amp;#65", "x &amp; y", "&copy", "a&b", "&amp;reg"})
 		if g.r.chance(1, 4) && !strings.Contains(v, "'") {
 			return fmt.Sprintf("data-k='%s'", strings.ReplaceAll(v, "&quot;", "\""))
@@ -292,7 +299,7 @@ func (g *tgen) element(ind int) (string, bool) {
 		a := g.attrs(el, ind)
 		return fmt.Sprintf("<%s%s%s>", el, a, g.r.pick([]string{"", "/", " /"})), strings.Contains(a, "\n")
 	default:
-		if g.noScript {
+		if g.noScript || g.plain {
 			return "<hr/>", false
 		}
 		g.note("element-raw")
@@ -434,6 +441,9 @@ func (g *tgen) node(ind int) (string, bool) {
 		switch g.r.intn(6) {
 		case 0:
 			g.note("call")
+			if g.plain {
+				return "@leaf(" + g.r.pick([]string{"s", "t", `"x"`, "p.Name"}) + ")", true
+			}
 			return "@leaf(" + g.r.pick([]string{"s", "t", `"x"`, "p.Name", "func() string { return s }()", "func(a string) string {\n" + g.indent(ind+1) + "return a\n" + g.indent(ind) + "}(t)"}) + ")", true
 		case 1:
 			g.note("call-block")
@@ -457,6 +467,8 @@ func (g *tgen) node(ind int) (string, bool) {
 			return "{ children... }", true
 		}
 		return g.strExpr(), false
+	case k == 25 && g.plain:
+		return g.text(), false
 	case k == 25:
 		g.note("gocode")
 		if g.oracle {
@@ -465,9 +477,15 @@ func (g *tgen) node(ind int) (string, bool) {
 		return g.r.pick([]string{"{{ x := s + t }}", "{{ _ = n }}", "{{ if b { _ = n } }}", "{{ x := 1 // c\n" + g.indent(ind) + "}}", "{{ for i := 0; i < n; i++ { _ = i } }}", "{{\n" + g.indent(ind+1) + "y := len(items)\n" + g.indent(ind+1) + "_ = y\n" + g.indent(ind) + "}}"}), true
 	case k == 26:
 		g.note("htmlcomment")
+		if g.plain {
+			return g.r.pick([]string{"<!-- comment -->", "<!--c-->"}), true
+		}
 		return g.r.pick([]string{"<!-- comment -->", "<!--c-->", "<!-- multi\n" + g.indent(ind) + "line -->"}), true
 	case k == 27:
 		g.note("gocomment")
+		if g.plain {
+			return g.r.pick([]string{"// go comment", "/* block comment */"}), true
+		}
 		return g.r.pick([]string{"// go comment", "/* block comment */", "/* multi\n" + g.indent(ind) + "   line */"}), true
 	default:
 		return g.element(ind)
